@@ -10,7 +10,10 @@ use tyme4rs::tyme::Tyme;
 fn alphabet(quick: bool) -> Vec<i64> {
   // the whole space costs ~2 s on 16 cores, so both tiers use the full alphabet
   let _ = quick;
-  let base: Vec<i64> = vec![1, 2, 7, 10, 11, 28, 29, 30, 31, 59, 365, 366, 1461, 36524, 36525, 146097, 1_000_000];
+  // every small step 1..=40 (so that every pair of dates up to 40 days apart is converted back to back), then the
+  // month / year / century sized ones
+  let mut base: Vec<i64> = (1..=40).collect();
+  base.extend([59, 60, 61, 365, 366, 1461, 36524, 36525, 146097, 1_000_000]);
   let mut v = Vec::new();
   for b in base {
     v.push(b);
